@@ -67,7 +67,7 @@ ExtSchema(ctx, t) ==
             [] t = 45 -> << gL("ke_modes", 1, 1) >>
             [] t = 51 -> << gR("client_shares", 2, << gC("group", 2, "reg:named_group"), gO("key_exchange", 2) >>) >>
             [] t = 65037 -> << gC("ech_type", 1, "code8"), gC("kdf_id", 2, "reg:hpke_kdf"), gC("aead_id", 2, "reg:hpke_aead"),
-                               gC("config_id", 1, "code8"), gOr("enc", 2), gOr("payload", 2) >>
+                               gC("config_id", 1, "reg:ech_config_id"), gOr("enc", 2), gOr("payload", 2) >>
             [] t = 65281 -> << gO("renegotiated_connection", 1) >>
             [] OTHER -> << Rest("data") >> )
     [] ctx = "sh" ->
@@ -263,6 +263,7 @@ Registered(tk) ==
     [] tk = "reg:named_group"      -> {23, 24, 25, 29, 30, 256, 257, 258, 4587, 4588, 25497, 25498}
     [] tk = "reg:sig_scheme"       -> {513, 515, 1025, 1027, 1281, 1283, 1537, 1539, 2052, 2053, 2054, 2055, 2056, 2057, 2058, 2059}
     [] tk = "reg:cert_compression" -> {1, 2, 3}
+    [] tk = "reg:ech_config_id"    -> {7, 107}      \* the ids of the ECH configs the harness's ECH-enabled server holds
     [] OTHER -> {}
 IsRegistry(tk) == Registered(tk) # {}
 RegistryTargets(tk) == LET R == Registered(tk) IN
@@ -274,7 +275,7 @@ SwapTargets(b, n) ==
   ( CASE n.tk = "hs"     -> HsKinds
       [] n.tk = "ext"    -> {41, 43, 51, 17613, 65280}
       [] n.tk = "code16" -> {0, 2570, 65535}
-      [] IsRegistry(n.tk) -> RegistryTargets(n.tk)
+      [] IsRegistry(n.tk) -> RegistryTargets(n.tk) \cap (0 .. (Pow256(n.tn) - 1))
       [] n.tk = "code8"  -> {0, (cur + 1) % 256, 255}
       [] n.tk = "rec"    -> {0, 20, 21, 23}
       [] OTHER -> {} ) \ {cur}
